@@ -775,7 +775,7 @@ def run(ctx):
     res = Result("C03")
     tier = ctx["tier"]
     import pycode_types  # translated frame object (Frame getters / setters / length / header / bytes) vs a real Frame subclass
-    pycode_types.check(res, random.Random(ctx["seed"] * 7919 + 79), ctx["tier"], ["frameobj"])
+    pycode_types.check(res, random.Random(ctx["seed"] * 7919 + 79), ctx["tier"], ["net", "frameobj"])
     res.rule = ("round trips: frames of all 33 kinds built from (addresses, versions, payload) -> .bytes (+ trailing bytes) -> "
                 "FrameReader.read -> fields, class, .bytes, == ; 2-6 frames serialised one after the other, frames for other devices (bodies with start delimiters / "
                 "embedded whole frames) in between -> read all -> exactly the frames addressed to us, in order; wire frames with arbitrary last byte -> read -> .bytes; "
@@ -822,6 +822,7 @@ def run(ctx):
                      "fresh frame built from the same arguments (modelled by PyFrame.fillMessage/fillData, theorem pyEq_fill_fresh); "
                      "count in input_distribution['eq:same-args-unequal-after-one-sided-fill …']")
     import reuse
+    reuse.JUDGE_DATA = True     # C03: data -> message -> data also on ONE re-used object
     reuse.frame_scenarios(res, corpus_scenarios)
     reuse.frame_reuse(res, random.Random(ctx["seed"] * 31 + 303), 600 if tier == "quick" else 20000)
     res.notes.append("object re-use: a frame that was serialised, updated through its setters and serialised again must equal a fresh frame built from the final content (bytes, length field, len())")
@@ -837,6 +838,7 @@ def replay(ctx):
     case = f["input"]
     if case.get("t") == "frame_reuse":
         import reuse
+        reuse.JUDGE_DATA = True
         reuse.frame_scenarios(res, [case])
         return res
     evaluate([case], res)
